@@ -28,8 +28,15 @@ type StallPlan struct {
 	TimeoutMs int        `json:"timeout_ms"`
 	LateMs    int        `json:"late_ms"` // >0: the rest of the record arrives this long after the deadline
 	Seg       string     `json:"seg"`
-	Only      *int       `json:"only,omitempty"`
-	Hint      *int       `json:"hint,omitempty"`
+	// ZeroWindow: the client never reads and its receive window is closed, so
+	// anything the front writes to it (the alert) blocks like on a full TCP
+	// send buffer.
+	ZeroWindow bool `json:"zero_window,omitempty"`
+	// Malformed: the bytes are those of a record NewConn must refuse (the
+	// stall is then the client not reading the alert).
+	Malformed bool `json:"malformed,omitempty"`
+	Only      *int `json:"only,omitempty"`
+	Hint      *int `json:"hint,omitempty"`
 }
 
 func executeStall(t *testing.T, prop string, seed uint64, p *StallPlan) *core.Result {
@@ -45,6 +52,10 @@ func executeStall(t *testing.T, prop string, seed uint64, p *StallPlan) *core.Re
 		return res
 	}
 	rec := b.outerRec
+	if p.Malformed {
+		rec = append([]byte(nil), rec...)
+		rec[0] = 23 // not a handshake record: unexpected_message
+	}
 	T := time.Duration(p.TimeoutMs) * time.Millisecond
 	curK := -1
 	var log []string
@@ -54,10 +65,14 @@ func executeStall(t *testing.T, prop string, seed uint64, p *StallPlan) *core.Re
 		if p.Only != nil {
 			lo, hi = *p.Only, *p.Only
 		}
+		back := simnet.LinkCfg{Seg: simnet.SegWhole}
+		if p.ZeroWindow {
+			back.Window = -1
+		}
 		for k := lo; k <= hi; k++ {
 			curK = k
 			res.Evals++
-			cc, fc := w.Pipe(fmt.Sprintf("c%d", k), fmt.Sprintf("f%d", k), simnet.LinkCfg{Seg: p.Seg, MaxSeg: 50, LatMinUs: 10, LatMaxUs: 300}, simnet.LinkCfg{Seg: simnet.SegWhole})
+			cc, fc := w.Pipe(fmt.Sprintf("c%d", k), fmt.Sprintf("f%d", k), simnet.LinkCfg{Seg: p.Seg, MaxSeg: 50, LatMinUs: 10, LatMaxUs: 300}, back)
 			cc.Write(rec[:k])
 			if p.LateMs > 0 && k < len(rec) {
 				go func() {
@@ -82,6 +97,10 @@ func executeStall(t *testing.T, prop string, seed uint64, p *StallPlan) *core.Re
 			case pk:
 				hint()
 				res.Fail(prop, "panic", s+": "+normMsg(m), "stall after %d of %d bytes", k, len(rec))
+			case p.Malformed && k == len(rec) && (nerr == nil || el > T+time.Millisecond):
+				hint()
+				res.Fail(prop, "stall", "NewConn does not return by its deadline when the client does not read the alert", "malformed record, err=%v after %v (deadline %v)", nerr, el, T)
+			case p.Malformed && k == len(rec):
 			case k < len(rec) && nerr == nil:
 				hint()
 				res.Fail(prop, "stall", "NewConn succeeded on an incomplete record", "stall after %d of %d bytes", k, len(rec))
@@ -99,7 +118,10 @@ func executeStall(t *testing.T, prop string, seed uint64, p *StallPlan) *core.Re
 			fc.Close()
 			cc.Close()
 			log = append(log, fmt.Sprintf("%d %v %v", k, nerr != nil, el))
-			res.Sigs = append(res.Sigs, core.SigOf("stall", region(rec, k), fmt.Sprint(min(k, 10)), fmt.Sprint(p.LateMs > 0), p.Seg, fmt.Sprint(seed)))
+			for _, l := range []*simnet.Link{fc.Out()} {
+				res.FaultN("write_blocked_by_zero_window", l.FiredCounts()["write_blocked"])
+			}
+			res.Sigs = append(res.Sigs, core.SigOf("stall", fmt.Sprint(p.ZeroWindow, p.Malformed), region(rec, k), fmt.Sprint(min(k, 10)), fmt.Sprint(p.LateMs > 0), p.Seg, fmt.Sprint(seed)))
 		}
 		curK = -2
 		res.SimNs = w.Now()
@@ -220,10 +242,28 @@ func mutateRecord(r *rand.Rand, rec []byte, muts []HMut) []byte {
 			case "dup-ech":
 				if e := h.Find(echbox.ExtECH); e >= 0 {
 					d := append([]byte(nil), h.Exts[e].Data...)
-					if len(d) > 1 {
-						d = d[:1+m.B%len(d)]
+					switch (m.B / 7) % 4 {
+					case 0: // cut short anywhere
+						if len(d) > 1 {
+							d = d[:1+m.B%len(d)]
+						}
+					case 1: // a well-formed extension of type inner
+						d = []byte{1}
+					case 2: // a well-formed, much shorter extension of type outer
+						if eo, err := echbox.ParseECHOuter(d); err == nil {
+							eo.Payload = eo.Payload[:min(len(eo.Payload), 1+m.B%24)]
+							if m.B%2 == 0 {
+								eo.Enc = nil
+							}
+							d = eo.Bytes()
+						}
+					case 3: // an exact copy
 					}
-					h.Exts = slices.Insert(h.Exts, m.A%(len(h.Exts)+1), echbox.Ext{Type: echbox.ExtECH, Data: d})
+					pos := e // before the real one
+					if m.A%2 == 1 {
+						pos = e + 1
+					}
+					h.Exts = slices.Insert(h.Exts, pos, echbox.Ext{Type: echbox.ExtECH, Data: d})
 				}
 			}
 			if b := h.Record(0x0301); len(b) <= 5+65535 {
@@ -443,6 +483,8 @@ func genC08(seed uint64, idx int) *Plan {
 		if r.IntN(3) == 0 {
 			s.LateMs = 1 + r.IntN(100)
 		}
+		s.ZeroWindow = r.IntN(2) == 0
+		s.Malformed = s.ZeroWindow && r.IntN(3) == 0
 		return &Plan{Kind: "stall", Seed: seed, Stall: s}
 	}
 	b := genScriptBase(r)
